@@ -202,6 +202,7 @@ C13Step(s, t, ev) == UnsignedChangesNothing(s, t, ev)
 \* the party a message names is not the party the operation belongs to in state s (messages reached through wrappers included)
 NotEntitled(s, m) ==
   CASE m.t \in {"Decide", "Whitelist"} -> ~IsSigner(s, m.signer)
+    [] m.t = "Raise" -> ~(m.pur \in DOMAIN s.ent.wl /\ s.ent.wl[m.pur])
     [] m.t \in {"WRec", "WBuy"} -> ChExists(s, "wrk", m.id) /\ ChOf(s, "wrk", m.id).owner # m.owner
     [] m.t \in {"BRec", "BBuy"} -> ChExists(s, "bcn", m.id) /\ ChOf(s, "bcn", m.id).owner # m.owner
     [] m.t \in {"STopUp", "SRate", "SCancel", "SClaim"} -> ~HasStream(s, m.receiver, m.sender)
